@@ -45,14 +45,15 @@ def run(rep, prog, tier):
 
     H = prog.cls('pgpy.types', 'Header')
     B = Bench(rep, prog)
-    new_format(rep, prog, H, B)
+    newformat(rep, prog, B)
     widths(rep, prog, H, B)
     mpi(rep, prog, B)
     s2k_count(rep, prog, B)
     times(rep, prog)
     subpacket_header(rep, prog, B)
     primitives(rep, prog, B)
-    tag_octet(rep, prog, B)
+    tagoctet(rep, prog, B)
+    partial(rep, prog, B)
     for q in sorted(B.E.touched):
         rep.saw(fn=q)
 
@@ -132,6 +133,14 @@ class Bench(object):
         self.rep = rep
         self.prog = prog
         self.E = Evaluator(prog)
+
+    def with_rep(self, rep):
+        """The same evaluator reporting to `rep` (another property proxies these rules under its own rule id)."""
+        if rep is self.rep:
+            return self
+        b = Bench.__new__(Bench)
+        b.rep, b.prog, b.E = rep, self.prog, self.E
+        return b
 
     def run(self, what, thunk):
         """('ok', v) | ('raise', name) | ('diverged',) | ('gap', why): evaluation left what the checker models / the state the bench set up."""
@@ -217,8 +226,12 @@ def new_header_octets(tag, field, body=b''):
 
 
 # ------------------------------------------------------------------------------------------------- C09.1
-def new_format(rep, prog, H, B):
+def newformat(rep, prog, B=None):
+    """C09.1 - new-format length encoder / decoder / declared width.  Callable with a rep proxy (C08 re-labels it): every
+    outcome goes to `rep`."""
+    B = (B or Bench(rep, prog)).with_rep(rep)
     E = B.E
+    H = prog.cls('pgpy.types', 'Header')
     PH = prog.cls('pgpy.packet.types', 'Header')
     enc = H.find_method('encode_length')
     if enc is None:
@@ -318,7 +331,7 @@ def new_format(rep, prog, H, B):
 # ------------------------------------------------------------------------------------------------- C09.2
 def widths(rep, prog, H, B=None):
     """Old-format length field (also run by C08 under its own rule id through a proxy: keep the signature)."""
-    B = B or Bench(rep, prog)
+    B = (B or Bench(rep, prog)).with_rep(rep)
     E = B.E
     PH = prog.cls('pgpy.packet.types', 'Header')
     g = E._prop(H, 'llen')
@@ -412,7 +425,8 @@ def widths(rep, prog, H, B=None):
 
 
 # ------------------------------------------------------------------------------------------------- C09.3
-def mpi(rep, prog, B):
+def mpi(rep, prog, B=None):
+    B = (B or Bench(rep, prog)).with_rep(rep)
     E = B.E
     M = prog.cls('pgpy.packet.types', 'MPI')
     new = M.find_method('__new__')
@@ -451,7 +465,7 @@ def mpi(rep, prog, B):
     values = [1, 2, 127, 128, 255, 256, 257, 511, 65535, 65536, (1 << 64) - 1, 1 << 64, magnitude(1023), magnitude(2048), magnitude(2049), (1 << 4096) - 1]
 
     def mk(v):
-        return Obj(M, ival=v)
+        return E.new(M, v)          # through MPI.__new__: whatever it stores on the new object is there
     B.sweep('C09.3', 'MPI.to_mpibytes', wr.where, 'MPI writer', 'an MPI is written as its bit length in two octets followed by the value in ceil(bits / 8) octets',
             (('value of %d bits' % v.bit_length(), (lambda v=v: snap(E.method(mk(v), 'to_mpibytes'))),
               ok(v.bit_length().to_bytes(2, 'big') + v.to_bytes(octets_needed(v), 'big'))) for v in values))
@@ -469,9 +483,35 @@ def mpi(rep, prog, B):
     B.sweep('C09.3', 'MPI', wr.where, 'MPI round trip', 'what the writer emits the reader takes back, octet for octet',
             (('value of %d bits' % v.bit_length(), rt(v), ok((v, tail))) for v in values))
 
+    # parse -> write: the value decides what is written, not the width it happened to arrive in (padded / over-declared encodings)
+    def reenc(bits, mag):
+        def thunk():
+            buf = VBuf(bits.to_bytes(2, 'big') + mag)
+            buf.extend(tail)
+            m = E.new(M, buf)
+            out = VBuf(E.method(m, 'to_mpibytes'))
+            n_out = len(out)
+            again = VBuf(out)
+            again.extend(tail)
+            m2 = E.new(M, again)
+            return (snap(out), snap(E.method(m, 'byte_length')), E.length(m), snap(m2), snap(again), n_out)
+        return thunk
+
+    def reenc_want(mag):
+        v = int.from_bytes(mag, 'big')
+        canon = v.bit_length().to_bytes(2, 'big') + v.to_bytes(octets_needed(v), 'big')
+        return ok((canon, octets_needed(v), octets_needed(v) + 2, v, tail, len(canon)))
+    pad = [(9, b'\x00\xff'), (16, b'\x00\xff'), (16, b'\x00\x01'), (8, b'\x7f'), (8, b'\x01'), (24, b'\x00\x00\xff'), (24, b'\x00\x80\x00'),
+           (32, b'\x00\x00\x01\x00'), (64, b'\x00' * 7 + b'\x01'), (2048, b'\x00' * 8 + b'\x5a' * 248), (2041, b'\x00' + b'\xa5' * 255),
+           (4096, b'\x00' * 256 + b'\xff' * 256), (16, b'\xff\xff'), (2048, b'\x80' + b'\x00' * 255)]
+    B.sweep('C09.3', 'MPI', wr.where, 'MPI parsed then written', 'the bit count written is the bit length of the value and the magnitude takes ceil(bits / 8) octets, '
+            'also for a value that arrived with leading zero octets or an over-declared bit count; byte_length / len agree with what is written',
+            (('bit count %d, %d octets %s..' % (bits, len(mag), mag[:3].hex()), reenc(bits, mag), reenc_want(mag)) for bits, mag in pad))
+
 
 # ------------------------------------------------------------------------------------------------- C09.4
-def s2k_count(rep, prog, B):
+def s2k_count(rep, prog, B=None):
+    B = (B or Bench(rep, prog)).with_rep(rep)
     E = B.E
     K = prog.cls('pgpy.packet.fields', 'String2Key')
     p = E._prop(K, 'count')
@@ -653,7 +693,8 @@ def _aware_utc_from_seconds(s, stored, pv):
 
 
 # ------------------------------------------------------------------------------------------------- C09.6
-def subpacket_header(rep, prog, B):
+def subpacket_header(rep, prog, B=None):
+    B = (B or Bench(rep, prog)).with_rep(rep)
     E = B.E
     SH = prog.cls('pgpy.packet.subpackets.types', 'Header')
     wr = SH.find_method('__bytearray__')
@@ -749,7 +790,8 @@ def subpacket_header(rep, prog, B):
 
 
 # ------------------------------------------------------------------------------------------------- C09.7
-def primitives(rep, prog, B):
+def primitives(rep, prog, B=None):
+    B = (B or Bench(rep, prog)).with_rep(rep)
     E = B.E
     P = prog.cls('pgpy.types', 'PGPObject')
     ibl = P.find_method('int_byte_len')
@@ -782,7 +824,9 @@ def primitives(rep, prog, B):
 
 
 # ------------------------------------------------------------------------------------------------- C09.8
-def tag_octet(rep, prog, B):
+def tagoctet(rep, prog, B=None):
+    """C09.8 - packet tag octet, both formats, writer and reader.  Callable with a rep proxy."""
+    B = (B or Bench(rep, prog)).with_rep(rep)
     E = B.E
     PH = prog.cls('pgpy.packet.types', 'Header')
     H = prog.cls('pgpy.types', 'Header')
@@ -837,7 +881,18 @@ def tag_octet(rep, prog, B):
             [('new format, value %#04x' % v, settag(0xC2, v), ok(v & 0x3F)) for v in range(0, 256, 1)] +
             [('old format, value %#04x' % v, settag(0x88, v), ok((v & 0x3C) >> 2)) for v in range(0, 256, 1)])
 
-    # partial body lengths: each chunk header is removed where it sits and the chunk lengths add up
+
+
+def partial(rep, prog, B=None):
+    """C09.8 - partial body lengths: each chunk header is removed where it sits and the chunk lengths add up.  Callable with a
+    rep proxy."""
+    B = (B or Bench(rep, prog)).with_rep(rep)
+    E = B.E
+    PH = prog.cls('pgpy.packet.types', 'Header')
+    H = prog.cls('pgpy.types', 'Header')
+    hp = PH.find_method('parse')
+    if hp is None:
+        raise AnalysisError('packet Header.parse vanished')
     lb = _setter(E, H, 'length', 'bytearray')
 
     def chain(chunks, final_field, final_len):
